@@ -20,6 +20,14 @@
      mapping is not part of the wire format.  Hence the statement compares after restoring the object; the
      identity (`.id`) of the decoded object is proved equal to the original one.
 
+  3. TOWARDS `GoodRun` for the encoded bytes (NOT finished): `gps_decode_encPayload` (one encoded store block on a
+     `Sim` pair under `DecodeOK`: nil error, remaining bytes exactly the tail, receivers related again),
+     `goodRun_bins_pos` / `goodRun_bins_neg` (`GoodRun` at an encoded store block = `DecodeOK` of the block and
+     `GoodRun` after it; the flag byte is decoded symbolically), `goodRun_nil`.
+     Still missing: the same step for the zero-count block and the mapping block, the induction along
+     `sketchBlocks`, and `DecodeOK` for the blocks of `pagBlocks` (deltas: `capOK_new`, `len(buffer) < 2^63`,
+     buffer entries int32; contiguous: `2·32 ≤ 3·len + 51`, int32 indexes, decoded counts finite `≥ 0`).
+
   Fuel: encoder `9 ≤ fuel`; decoder `len(out) + 9 ≤ fuel'`.
   Core Lean only.
 -/
@@ -277,5 +285,104 @@ theorem gps_decode_encPayload {x : GPS grow} {st : Store} (h : Sim x st) (p : Bi
   simp only at e1 e3 e4
   subst e1 e3
   exact ⟨t, rfl, e4⟩
+
+section goodRunStep
+
+variable {M : Type} [MapI M] [Inhabited M]
+
+theorem mkFlag_toNat (t sub : Nat) (ht : t < 4) (hs : sub < 64) :
+    (BitVec.ofNat 8 (Wire.mkFlag t sub)).toNat = Wire.mkFlag t sub := by
+  rw [BitVec.toNat_ofNat]
+  apply Nat.mod_eq_of_lt
+  unfold Wire.mkFlag
+  rw [show Consts.numBitsForType = 2 from rfl]
+  omega
+
+omit [Inhabited M] in
+/-- **`GoodRun` at an encoded POSITIVE store block**: the side conditions of the block, and `GoodRun` after it -/
+theorem goodRun_bins_pos (fb : List (BitVec 8) → Flag → Res (List (BitVec 8) × GoErr)) (fuel : Nat)
+    (p : BinsPayload) (T : Bytes) (a : DDSketch M (GPS grow)) (hs : Wire.payloadSub p < 64)
+    (hok : DecodeOK a.positiveValueStore (bn (Wire.encPayload p ++ T))
+      (GenStoreDecode.subflag (Wire.payloadSub p)))
+    (hnext : ∀ t b2, (StoreI.DecodeAndMergeWith a.positiveValueStore (bn (Wire.encPayload p ++ T))
+        (GenStoreDecode.subflag (Wire.payloadSub p)) : GPS grow × List (BitVec 8) × GoErr) = (t, b2, GoErr.nil) →
+      GoodRun DecodeOK fb fuel b2 { a with positiveValueStore := t }) :
+    GoodRun DecodeOK fb (fuel + 1) (bn (Wire.encBlock (.bins .pos p) ++ T)) a := by
+  unfold GoodRun
+  intro b1 flag hF
+  rw [Sketch.encBlock_bins_pos, List.cons_append] at hF
+  change DecodeFlag fuel (BitVec.ofNat 8 _ :: bn (Wire.encPayload p ++ T)) = _ at hF
+  rw [GenSketch.DecodeFlag_cons] at hF
+  obtain ⟨rfl, rfl⟩ : bn (Wire.encPayload p ++ T) = b1 ∧
+      (⟨BitVec.ofNat 8 (Wire.mkFlag Consts.flagTypePositiveStore (Wire.payloadSub p))⟩ : Flag) = flag := by
+    have := Res.ok.inj hF
+    exact ⟨(Prod.mk.inj this).1, (Prod.mk.inj (Prod.mk.inj this).2).1⟩
+  have hn := mkFlag_toNat Consts.flagTypePositiveStore (Wire.payloadSub p) (by decide) hs
+  obtain ⟨f1, f2⟩ := Wire.flag_mk Consts.flagTypePositiveStore (Wire.payloadSub p) (by decide)
+  have hT : (Flag.Type (⟨BitVec.ofNat 8 (Wire.mkFlag Consts.flagTypePositiveStore (Wire.payloadSub p))⟩ : Flag)
+      == FlagTypePositiveStore) = true := by
+    rw [GenSketch.type_beq, FlagTypePositiveStore_byte, decide_eq_true_eq]
+    show Wire.flagType (BitVec.ofNat 8 _).toNat = _
+    rw [hn, f1]
+  have hS : Flag.SubFlag (⟨BitVec.ofNat 8 (Wire.mkFlag Consts.flagTypePositiveStore (Wire.payloadSub p))⟩ : Flag)
+      = GenStoreDecode.subflag (Wire.payloadSub p) := by
+    rw [GenStoreDecode.Flag_SubFlag_subflag]
+    show GenStoreDecode.subflag (Wire.flagSub (BitVec.ofNat 8 _).toNat) = _
+    rw [hn, f2]
+  rw [if_pos hT, hS]
+  exact ⟨hok, hnext⟩
+
+omit [Inhabited M] in
+/-- **`GoodRun` at an encoded NEGATIVE store block** -/
+theorem goodRun_bins_neg (fb : List (BitVec 8) → Flag → Res (List (BitVec 8) × GoErr)) (fuel : Nat)
+    (p : BinsPayload) (T : Bytes) (a : DDSketch M (GPS grow)) (hs : Wire.payloadSub p < 64)
+    (hok : DecodeOK a.negativeValueStore (bn (Wire.encPayload p ++ T))
+      (GenStoreDecode.subflag (Wire.payloadSub p)))
+    (hnext : ∀ t b2, (StoreI.DecodeAndMergeWith a.negativeValueStore (bn (Wire.encPayload p ++ T))
+        (GenStoreDecode.subflag (Wire.payloadSub p)) : GPS grow × List (BitVec 8) × GoErr) = (t, b2, GoErr.nil) →
+      GoodRun DecodeOK fb fuel b2 { a with negativeValueStore := t }) :
+    GoodRun DecodeOK fb (fuel + 1) (bn (Wire.encBlock (.bins .neg p) ++ T)) a := by
+  unfold GoodRun
+  intro b1 flag hF
+  rw [Sketch.encBlock_bins_neg, List.cons_append] at hF
+  change DecodeFlag fuel (BitVec.ofNat 8 _ :: bn (Wire.encPayload p ++ T)) = _ at hF
+  rw [GenSketch.DecodeFlag_cons] at hF
+  obtain ⟨rfl, rfl⟩ : bn (Wire.encPayload p ++ T) = b1 ∧
+      (⟨BitVec.ofNat 8 (Wire.mkFlag Consts.flagTypeNegativeStore (Wire.payloadSub p))⟩ : Flag) = flag := by
+    have := Res.ok.inj hF
+    exact ⟨(Prod.mk.inj this).1, (Prod.mk.inj (Prod.mk.inj this).2).1⟩
+  have hn := mkFlag_toNat Consts.flagTypeNegativeStore (Wire.payloadSub p) (by decide) hs
+  obtain ⟨f1, f2⟩ := Wire.flag_mk Consts.flagTypeNegativeStore (Wire.payloadSub p) (by decide)
+  have hT0 : (Flag.Type (⟨BitVec.ofNat 8 (Wire.mkFlag Consts.flagTypeNegativeStore (Wire.payloadSub p))⟩ : Flag)
+      == FlagTypePositiveStore) = false := by
+    rw [GenSketch.type_beq, FlagTypePositiveStore_byte, decide_eq_false_iff_not]
+    show ¬ Wire.flagType (BitVec.ofNat 8 _).toNat = _
+    rw [hn, f1]; decide
+  have hT : (Flag.Type (⟨BitVec.ofNat 8 (Wire.mkFlag Consts.flagTypeNegativeStore (Wire.payloadSub p))⟩ : Flag)
+      == FlagTypeNegativeStore) = true := by
+    rw [GenSketch.type_beq, FlagTypeNegativeStore_byte, decide_eq_true_eq]
+    show Wire.flagType (BitVec.ofNat 8 _).toNat = _
+    rw [hn, f1]
+  have hS : Flag.SubFlag (⟨BitVec.ofNat 8 (Wire.mkFlag Consts.flagTypeNegativeStore (Wire.payloadSub p))⟩ : Flag)
+      = GenStoreDecode.subflag (Wire.payloadSub p) := by
+    rw [GenStoreDecode.Flag_SubFlag_subflag]
+    show GenStoreDecode.subflag (Wire.flagSub (BitVec.ofNat 8 _).toNat) = _
+    rw [hn, f2]
+  rw [hT0, if_neg (by decide), if_pos hT, hS]
+  exact ⟨hok, hnext⟩
+
+omit [Inhabited M] in
+/-- `GoodRun` at the end of the input: nothing is asked -/
+theorem goodRun_nil (fb : List (BitVec 8) → Flag → Res (List (BitVec 8) × GoErr)) (fuel : Nat)
+    (a : DDSketch M (GPS grow)) : GoodRun DecodeOK fb fuel [] a := by
+  cases fuel with
+  | zero => exact trivial
+  | succ fuel =>
+    unfold GoodRun
+    intro b1 flag hF
+    rw [DecodeFlag_eq] at hF
+    exact absurd (Prod.mk.inj (Prod.mk.inj (Res.ok.inj hF)).2).2 (by decide)
+
+end goodRunStep
 
 end DDS.GenPagSketch
